@@ -54,7 +54,7 @@ TRUSTED = ["float32 arithmetic of upgma/nj modelled as exact rational arithmetic
 ASSUMPTIONS = ["additivity of a distance matrix is the four-point condition; that the path metric of every tree with "
                "non-negative branch lengths satisfies it is proved (C19_tree_metric_four_point), the converse direction of "
                "Buneman's theorem (every four-point matrix comes from a tree) is not needed and not proved"]
-LEVEL_TEXT = ("Lean theorems for all inputs on the executable model (39, no sorry); every clause of the property is a "
+LEVEL_TEXT = ("Lean theorems for all inputs on the executable model (46, no sorry; 9 of them obligations on ~40 facts regenerated from the three .pyx files on every run: guards and their order, constants, operators, loop domains, formulas, dtypes, defaults); every clause of the property is a "
               "theorem: UPGMA and NJ leaves = every index exactly once (loop invariant + termination, NJ incl. the "
               "three-way join); NJ totality (every accepted matrix, zero distances and ties included, yields a tree); "
               "UPGMA merge height = half the average linkage of the merged clusters, every leaf under a node at distance "
